@@ -172,7 +172,9 @@ func (w *World) Discharge(fc *FnCtx, header string, scratch string, timeoutS int
 			} else {
 				o.Status = "unknown"
 			}
-			rest = append(rest, o)
+			if o.Kind != "canary" {
+				rest = append(rest, o)
+			}
 		}
 	}
 	// phase 2: individual files, raced
